@@ -18,7 +18,7 @@ ASSUMPTIONS = ["base names range over the ASCII identifier language [A-Za-z_][A-
                "n <= 3 objects + one re-request; objects are symmetric so one request order with arbitrary names covers all orders",
                "golden/sv2017_keywords.txt (248 words, IEEE 1800-2017 Annex B) is trusted",
                "NOT claimed: the 'two runs produce the same text' clause - it depends on CPython set iteration order over Signal hashes, which an SMT query over get_name cannot decide"]
-BOUNDS = {"quick": "get_name: n = 1, 2 objects with re-request and the full 248-entry keyword table; n = 3 with a 4-word excerpt of the table; emitted text (real convert()): three designs (memory with write-first and read-first ports next to ports/registers, an Instance next to ports, two memories) with 2 symbolic user names and the full table, and with 3 symbolic names and the 4-word excerpt", "thorough": "get_name n = 3 with the full table; emitted text additionally 3 symbolic names on the 15-declaration memory design"}
+BOUNDS = {"quick": "get_name: n = 1, 2 objects with re-request and the full 248-entry keyword table; n = 3 with a 4-word excerpt of the table; emitted text (real convert()): three designs (memory with write-first and read-first ports next to ports/registers, an Instance next to ports, two memories) with 2 symbolic user names and the full table, and with 3 symbolic names and the 4-word excerpt", "thorough": "get_name n = 3 with the full table; emitted text as in the quick tier (3 symbolic names on the 15-declaration memory design did not finish in 75 min and is in no tier)"}
 OUTSIDE = "run-to-run reproducibility of the emitted text; more than 3 simultaneously symbolic names; designs other than the three small ones for the emitted-text obligations (the hierarchical name stage only proposes base names and runs concretely there); identifiers that are used but not declared in the module (instance port names, parameters)"
 FUNCS = ["litex.gen.fhdl.namer.SignalNamespace.__init__", "litex.gen.fhdl.namer.SignalNamespace.get_name", "litex.gen.fhdl.verilog._ieee_1800_2017_verilog_reserved_keywords",
          "litex.gen.fhdl.namer.build_signal_namespace", "litex.gen.fhdl.verilog.convert", "litex.gen.fhdl.memory._memory_generate_verilog", "litex.gen.fhdl.instance._instance_generate_verilog"]
